@@ -45,6 +45,7 @@ def instance(name, programs, acts, cap=1, pol="block", reducers=("r1",), red_scr
                 if o["op"] == "add_mw":
                     mids.add(o["s"])
     red_script = red_script or {}
+    rids |= set(red_script)
     rs = {r: {k: red_script.get(r, {}).get(k, red()) for k in kinds} for r in sorted(rids)}
     mw_script = mw_script or {}
     ms = {m: {ph: {k: mw_script.get(m, {}).get(ph, {}).get(k, "C") for k in kinds}
